@@ -249,10 +249,136 @@ Proof.
       { subst d0. rewrite !app_length. unfold zlen in Ht8. cbn [length bundle_prefix]. lia. }
       assert (Hrt : Forall (rt nc) tl) by (apply Forall_forall; intros x _; apply rt_all).
       destruct (rt_contents nc lat tl Hrt Hwtl (forallb_guard nc lat tl Hel) ds b Hds Hb
-                            (bundle_prefix ++ t) [] [] (length d0) eq_refl ltac:(lia)) as (cs & _ & Hpc).
-      unfold check_bundle, parse_bundle_top. cbn [parse_bundle].
+                            (bundle_prefix ++ t) [] [] (16 + length b)%nat eq_refl ltac:(lia)) as (cs & _ & Hpc).
+      unfold check_bundle, parse_bundle_top. rewrite Hlen. cbn [parse_bundle].
       subst d0. change 8 with (zlen bundle_prefix) at 1.
       rewrite (get_timetag_write _ _ _ _ Ht). cbn [bind].
       replace (zlen bundle_prefix + 8) with (zlen (bundle_prefix ++ t)) by (rewrite zlen_app; change (zlen bundle_prefix) with 8; lia).
       rewrite app_nil_r in Hpc. rewrite app_assoc. rewrite Hpc. reflexivity.
+Qed.
+
+(* ---- conversely: whatever the (NUL-checking) encoder accepts is representable ---- *)
+Lemma write_int_inv : forall z h, write_int z = Ok h -> int32 z = true.
+Proof. intros z h H. unfold write_int in H. unfold int32. destruct (_ && _); [reflexivity | discriminate H]. Qed.
+Lemma write_timetag_inv : forall t h, write_timetag t = Ok h -> uint64 t = true.
+Proof. intros t h H. unfold write_timetag in H. unfold uint64. destruct (_ && _); [reflexivity | discriminate H]. Qed.
+Lemma write_blob_inv : forall b h, write_blob b = Ok h ->
+  negb (match b with [] => true | _ => false end) && (zlen b <? 2147483648) = true.
+Proof.
+  intros b h H. unfold write_blob in H. destruct b as [| x r]; [discriminate H |].
+  apply bind_ok in H as (hd & Hh & _). apply write_int_inv in Hh. unfold int32 in Hh.
+  apply andb_prop in Hh as [_ Hh]. cbn [negb andb]. exact Hh.
+Qed.
+Lemma is_open_inv : forall s, is_open_s s = true -> s = [91].
+Proof.
+  intros s H. unfold is_open_s in H. destruct s as [| b [| c r]]; try discriminate H.
+  - destruct b as [| p | p]; try discriminate H.
+    repeat (destruct p as [p | p |]; try discriminate H). reflexivity.
+  - destruct b as [| p | p]; try discriminate H.
+    repeat (destruct p as [p | p |]; try discriminate H).
+Qed.
+Lemma is_close_inv : forall s, is_close_s s = true -> s = [93].
+Proof.
+  intros s H. unfold is_close_s in H. destruct s as [| b [| c r]]; try discriminate H.
+  - destruct b as [| p | p]; try discriminate H.
+    repeat (destruct p as [p | p |]; try discriminate H). reflexivity.
+  - destruct b as [| p | p]; try discriminate H.
+    repeat (destruct p as [p | p |]; try discriminate H).
+Qed.
+
+Lemma nests_balanced : forall nc args targs st ps,
+  coerce_args nc args = Ok targs -> st <> [] -> nest (map tok_of targs) st = Some ps ->
+  balanced args (pred (length st)) = true.
+Proof.
+  intros nc args. induction args as [| x r IH]; intros targs st ps Hc Hst Hn.
+  - cbn in Hc. inv_ok Hc. cbn [map nest] in Hn. destruct st as [| top [| y z]]; try discriminate Hn. reflexivity.
+  - cbn [coerce_args] in Hc. apply bind_ok in Hc as (t & Ht & Hc). apply bind_ok in Hc as (ts & Hts & Hc). inv_ok Hc.
+    destruct st as [| top rest]; [contradiction |].
+    assert (Hval : forall v, tok_of t = KVal v -> balanced r (pred (length (top :: rest))) = true).
+    { intros v Hv. cbn [map nest] in Hn. rewrite Hv in Hn.
+      exact (IH ts ((v :: top) :: rest) ps Hts ltac:(discriminate) Hn). }
+    destruct x as [| b | z | w | s | b | lat tag | | l]; cbn [coerce1] in Ht; try discriminate Ht;
+      try (inv_ok Ht; cbn [balanced]; exact (Hval _ eq_refl)).
+    + inv_ok Ht. cbn [balanced]. unfold is_open_s, is_close_s.
+      destruct (match s with [91] => true | _ => false end).
+      * cbn [map tok_of nest] in Hn. exact (IH ts ([] :: top :: rest) ps Hts ltac:(discriminate) Hn).
+      * destruct (match s with [93] => true | _ => false end).
+        -- cbn [map tok_of nest] in Hn. destruct rest as [| p rest']; [discriminate Hn |].
+           exact (IH ts ((PArr (rev top) :: p) :: rest') ps Hts ltac:(discriminate) Hn).
+        -- exact (Hval _ eq_refl).
+    + cbn [balanced]. destruct l as [| h tl]; [inv_ok Ht; exact (Hval _ eq_refl) |].
+      destruct h; try discriminate Ht.
+      * apply bind_ok in Ht as (d & _ & Ht). inv_ok Ht. exact (Hval _ eq_refl).
+      * destruct tl as [| e1 tl']; [discriminate Ht |]. destruct e1; try discriminate Ht.
+        apply bind_ok in Ht as (d & _ & Ht). inv_ok Ht. exact (Hval _ eq_refl).
+Qed.
+
+Definition representable (a : arg) : Prop :=
+  forall d, build_pkt true a = Ok d -> in_domain false a = true.
+
+Lemma representable_args : forall args targs v,
+  Forall representable args -> coerce_args true args = Ok targs -> enc_targs true targs = Ok v ->
+  forallb (arg_ok false) args = true.
+Proof.
+  induction args as [| x r IH]; intros targs v HF Hc He; [reflexivity |].
+  cbn [coerce_args] in Hc. apply bind_ok in Hc as (t & Ht & Hc). apply bind_ok in Hc as (ts & Hts & Hc). inv_ok Hc.
+  cbn [enc_targs] in He. apply bind_ok in He as (a & Ha & He). apply bind_ok in He as (b & Hb & He). inv_ok He.
+  inversion HF as [| ? ? Hx Hr]; subst.
+  cbn [forallb]. rewrite (IH ts b Hr Hts Hb), andb_true_r.
+  destruct x as [| bo | z | w | s | bl | lat tag | | l]; cbn [coerce1] in Ht; try discriminate Ht; cbn [arg_ok].
+  - reflexivity.
+  - reflexivity.
+  - inv_ok Ht. cbn [enc_targ] in Ha. exact (write_int_inv _ _ Ha).
+  - reflexivity.
+  - inv_ok Ht.
+    destruct (match s with [91] => true | _ => false end) eqn:Eo.
+    { rewrite (is_open_inv s Eo). reflexivity. }
+    destruct (match s with [93] => true | _ => false end) eqn:Ec.
+    { rewrite (is_close_inv s Ec). reflexivity. }
+    cbn [enc_targ] in Ha. destruct (write_string_inv _ _ _ Ha) as [_ Hn]. rewrite (Hn eq_refl). reflexivity.
+  - inv_ok Ht. cbn [enc_targ] in Ha. exact (write_blob_inv _ _ Ha).
+  - destruct l as [| h tl]; [reflexivity |].
+    destruct h; try discriminate Ht.
+    + apply bind_ok in Ht as (d & Hd & _). rewrite (Hx d Hd). reflexivity.
+    + destruct tl as [| e1 tl']; [discriminate Ht |]. destruct e1; try discriminate Ht.
+      apply bind_ok in Ht as (d & Hd & _). rewrite (Hx d Hd). reflexivity.
+Qed.
+
+Lemma representable_elems : forall lat elems ds,
+  Forall representable elems -> build_elems true lat elems = Ok ds -> forallb (elem_ok false lat) elems = true.
+Proof.
+  induction elems as [| e r IH]; intros ds HF Hb; [reflexivity |].
+  cbn [build_elems] in Hb. apply bind_ok in Hb as (d & Hd & Hb). apply bind_ok in Hb as (ds' & Hds & _).
+  inversion HF as [| ? ? He Hr]; subst.
+  cbn [forallb]. rewrite (IH ds' Hr Hds), andb_true_r.
+  destruct (build_elem_shape _ _ _ _ Hd) as [Hbp [(addr & args & ->) | (sub & tag & es & -> & Hsub)]]; cbn [elem_ok].
+  - rewrite (He d Hbp). reflexivity.
+  - rewrite Hsub, (He d Hbp). reflexivity.
+Qed.
+
+Theorem representable_all : forall a, floats4 a = true -> representable a.
+Proof.
+  apply (arg_nested_ind (fun a => floats4 a = true -> representable a)).
+  - intros a Hleaf _ d Hb. destruct a; try discriminate Hb. exfalso. eapply Hleaf. reflexivity.
+  - intros l HF Hwf d Hb. rewrite floats4_list in Hwf.
+    destruct l as [| h tl]; [discriminate Hb |].
+    inversion HF as [| ? ? _ Htl]; subst. cbn [forallb] in Hwf. apply andb_prop in Hwf as [_ Hwtl].
+    assert (Hrep : Forall representable tl).
+    { apply Forall_forall. intros x Hx. rewrite Forall_forall in Htl. apply (Htl x Hx).
+      rewrite forallb_forall in Hwtl. exact (Hwtl x Hx). }
+    destruct h as [| | | | addr | | lat tag | |]; try discriminate Hb.
+    + rewrite build_pkt_msg in Hb. apply bind_ok in Hb as (targs & Hc & Hb). apply bind_ok in Hb as (d0 & He & Hb).
+      pose proof He as He0.
+      unfold enc_msg in He. destruct addr as [| a0 ar] eqn:Ea; [discriminate He |]. rewrite <- Ea in *.
+      apply bind_ok in He as (a & Ha & He). apply bind_ok in He as (t & Ht & He). apply bind_ok in He as (v & Hv & He).
+      destruct (write_string_inv _ _ _ Ha) as [_ Hna]. specialize (Hna eq_refl).
+      assert (Hok : Forall targ_ok targs) by (apply (coerce_args_ok true tl targs v Hwtl Hc Hv); left; reflexivity).
+      unfold check_msg in Hb. rewrite (parse_enc_msg true addr targs d0 He0 Hna Hok) in Hb. unfold nest_res in Hb.
+      destruct (nest (map tok_of targs) [[]]) as [ps |] eqn:Hn; [| discriminate Hb].
+      rewrite in_domain_msg, Hna, (nests_balanced true tl targs [[]] ps Hc ltac:(discriminate) Hn),
+        (representable_args tl targs v Hrep Hc Hv).
+      rewrite Ea. reflexivity.
+    + rewrite build_pkt_bundle in Hb. apply bind_ok in Hb as (ds & Hds & Hb). apply bind_ok in Hb as (d0 & He & _).
+      unfold enc_bundle in He. apply bind_ok in He as (t & Ht & _).
+      rewrite in_domain_bundle, (write_timetag_inv _ _ Ht), (representable_elems lat tl ds Hrep Hds). reflexivity.
 Qed.
